@@ -70,6 +70,46 @@ type sweepFam struct {
 	cases int    // size of the complete case space
 	// set fills the registers for case i; rnd supplies the unrelated registers
 	set func(i int, rg *cpu.VerifRegs, rnd *engine.Rand)
+	// place (control-flow families): writes the instruction of case i into plain memory and sets
+	// PC (and SP) for it. Every instruction is then a case: the harness resets PC at each instruction
+	// boundary, so whatever lies at the target of the jump is never executed.
+	place func(i int, l *lockstep, rg *cpu.VerifRegs, rnd *engine.Rand)
+}
+
+// cfPC picks the address of a control-flow case: inside the code windows, at page ends, at the end of
+// work RAM (operands fetched through the echo boundary) and at the top of high RAM (PC wraps past FFFF).
+func cfPC(rnd *engine.Rand, size int) uint16 {
+	switch rnd.Intn(8) {
+	case 0:
+		return uint16(0xc100 - rnd.Intn(size+2))
+	case 1:
+		return uint16(0xe000 - size - rnd.Intn(2))
+	case 2:
+		return uint16(0xffff - size - rnd.Intn(3))
+	case 3:
+		return uint16(rnd.Range(0xff80, 0xfff0))
+	case 4:
+		return uint16(0xc000 + rnd.Intn(4))
+	}
+	return uint16(rnd.Range(0xc000, 0xd800))
+}
+
+const cfNopAt = 0xdc00 // outside every window cfPC picks from, inside work RAM
+
+func cfPlace(l *lockstep, rg *cpu.VerifRegs, pc uint16, code ...byte) {
+	for i, b := range code {
+		l.pokeBoth(pc+uint16(i), b)
+	}
+	rg.PC = pc
+}
+
+func cfStack(l *lockstep, rg *cpu.VerifRegs, rnd *engine.Rand, ret uint16) {
+	rg.SP = uint16(rnd.Range(lsStackLo+0x40, lsStackHi-0x40))
+	if rnd.Chance(1, 8) {
+		rg.SP = 0xdaff - uint16(rnd.Intn(3)) // the two bytes straddle a page
+	}
+	l.pokeBoth(rg.SP, uint8(ret))
+	l.pokeBoth(rg.SP+1, uint8(ret>>8))
 }
 
 func carryF(cin int, rnd *engine.Rand) uint8 {
@@ -181,6 +221,60 @@ var sweepFams = func() []sweepFam {
 				rg.F = rnd.Byte() & 0xf0
 			}})
 	}
+	// ---- control flow: every target, every displacement, both outcomes of every condition ----
+	for _, op := range []uint8{0x18, 0x20, 0x28, 0x30, 0x38} { // JR e / JR cc,e: e x flag nibble
+		oo := op
+		fs = append(fs, sweepFam{name: fmt.Sprintf("jr%02x", op), cases: 4096,
+			set: func(i int, rg *cpu.VerifRegs, rnd *engine.Rand) { rg.F = uint8(i>>8) << 4 },
+			place: func(i int, l *lockstep, rg *cpu.VerifRegs, rnd *engine.Rand) {
+				cfPlace(l, rg, cfPC(rnd, 2), oo, uint8(i))
+			}})
+	}
+	for _, op := range []uint8{0xc3, 0xc2, 0xca, 0xd2, 0xda, 0xcd, 0xc4, 0xcc, 0xd4, 0xdc} { // JP/CALL nn and cc
+		oo := op
+		fs = append(fs, sweepFam{name: fmt.Sprintf("jpcall%02x", op), cases: 4096,
+			set: func(i int, rg *cpu.VerifRegs, rnd *engine.Rand) { rg.F = uint8(i&15) << 4 },
+			place: func(i int, l *lockstep, rg *cpu.VerifRegs, rnd *engine.Rand) {
+				nn := rnd.U16()
+				if i&16 != 0 {
+					nn = rnd.EdgeU16()
+				}
+				cfStack(l, rg, rnd, rnd.U16())
+				cfPlace(l, rg, cfPC(rnd, 3), oo, uint8(nn), uint8(nn>>8))
+			}})
+	}
+	for _, op := range []uint8{0xc9, 0xd9, 0xc0, 0xc8, 0xd0, 0xd8} { // RET / RETI / RET cc
+		oo := op
+		fs = append(fs, sweepFam{name: fmt.Sprintf("ret%02x", op), cases: 4096,
+			set: func(i int, rg *cpu.VerifRegs, rnd *engine.Rand) { rg.F = uint8(i&15) << 4 },
+			place: func(i int, l *lockstep, rg *cpu.VerifRegs, rnd *engine.Rand) {
+				ret := rnd.U16()
+				if i&16 != 0 {
+					ret = rnd.EdgeU16()
+				}
+				cfStack(l, rg, rnd, ret)
+				cfPlace(l, rg, cfPC(rnd, 1), oo)
+			}})
+	}
+	for y := 0; y < 8; y++ { // RST
+		oo := uint8(0xc7 | y<<3)
+		fs = append(fs, sweepFam{name: fmt.Sprintf("rst%02x", oo), cases: 512,
+			set: func(i int, rg *cpu.VerifRegs, rnd *engine.Rand) { rg.F = rnd.Byte() & 0xf0 },
+			place: func(i int, l *lockstep, rg *cpu.VerifRegs, rnd *engine.Rand) {
+				cfStack(l, rg, rnd, rnd.U16())
+				cfPlace(l, rg, cfPC(rnd, 1), oo)
+			}})
+	}
+	fs = append(fs, sweepFam{name: "jphl", cases: 65536, // JP (HL): every target
+		set: func(i int, rg *cpu.VerifRegs, rnd *engine.Rand) {
+			rg.H, rg.L, rg.F = uint8(i>>8), uint8(i), rnd.Byte()&0xf0
+		},
+		place: func(i int, l *lockstep, rg *cpu.VerifRegs, rnd *engine.Rand) { cfPlace(l, rg, cfPC(rnd, 1), 0xe9) }})
+	fs = append(fs, sweepFam{name: "ldsphl", cases: 65536, // LD SP,HL: every value
+		set: func(i int, rg *cpu.VerifRegs, rnd *engine.Rand) {
+			rg.H, rg.L, rg.F = uint8(i>>8), uint8(i), rnd.Byte()&0xf0
+		},
+		place: func(i int, l *lockstep, rg *cpu.VerifRegs, rnd *engine.Rand) { cfPlace(l, rg, cfPC(rnd, 1), 0xf9) }})
 	return fs
 }()
 
@@ -242,6 +336,9 @@ func genSweep(r *engine.Rand, sc *engine.Scenario, idx int) {
 	g := &progGen{r: r, base: lsCodeWRAM}
 	// the instruction repeated, then a jump back
 	reps := 64
+	if f.place != nil {
+		reps = 0
+	}
 	for i := 0; i < reps; i++ {
 		g.emit(f.code...)
 	}
@@ -256,7 +353,7 @@ func genSweep(r *engine.Rand, sc *engine.Scenario, idx int) {
 	}
 	sc.SetP("last", int64(last))
 	sc.SetStr("fam_name", f.name)
-	sc.Cycles = uint64(last-idx*sweepChunk)*6 + 64
+	sc.Cycles = uint64(last-idx*sweepChunk)*8 + 64
 }
 
 // executeCPU runs a program or sweep scenario; focus selects which mismatch kinds count.
@@ -271,6 +368,7 @@ func executeCPU(id string, sc *engine.Scenario, focus map[string]bool) *engine.R
 	var caseI, caseLast int
 	var rnd *engine.Rand
 	jp := uint16(0)
+	atNop := false
 	nextCase := func() bool {
 		if caseI >= caseLast {
 			return false
@@ -279,7 +377,10 @@ func executeCPU(id string, sc *engine.Scenario, focus map[string]bool) *engine.R
 		rg.A, rg.B, rg.C, rg.D, rg.E, rg.H, rg.L = rnd.Byte(), rnd.Byte(), rnd.Byte(), rnd.Byte(), rnd.Byte(), rnd.Byte(), rnd.Byte()
 		sp := rg.SP
 		fam.set(caseI, &rg, rnd)
-		if fam.code[0] != 0xe8 && fam.code[0] != 0xf8 && fam.code[0] != 0x33 && fam.code[0] != 0x3b && fam.code[0] != 0x39 {
+		if fam.place != nil {
+			rg.SP = sp
+			fam.place(caseI, l, &rg, rnd)
+		} else if fam.code[0] != 0xe8 && fam.code[0] != 0xf8 && fam.code[0] != 0x33 && fam.code[0] != 0x3b && fam.code[0] != 0x39 {
 			rg.SP = sp
 		}
 		rg.F &= 0xf0
@@ -293,6 +394,9 @@ func executeCPU(id string, sc *engine.Scenario, focus map[string]bool) *engine.R
 		caseI, caseLast = int(sc.P("first", 0)), int(sc.P("last", 0))
 		rnd = engine.NewRand(uint64(sc.P("fill", 1)) ^ 0x5eed)
 		jp = lsCodeWRAM + uint16(64*len(fam.code))
+		if fam.place != nil {
+			jp = 0
+		}
 		nextCase()
 	}
 	since := 0
@@ -338,6 +442,22 @@ func executeCPU(id string, sc *engine.Scenario, focus map[string]bool) *engine.R
 		}
 		if sweep {
 			// the next instruction is a case unless it is the jump back
+			if fam.place != nil {
+				// Two steps per case. The emulator decides "instruction finished" of a conditional
+				// instruction from the live flags, so the flags of the next case may only be set while
+				// an unconditional instruction is the one just finished: first only PC moves (to a NOP),
+				// then, at the boundary after the NOP, the case is set up.
+				if !atNop {
+					rg := l.m.CPU.VerifGetRegs()
+					l.pokeBoth(cfNopAt, 0x00)
+					rg.PC = cfNopAt
+					l.m.CPU.VerifSetRegs(rg)
+					atNop = true
+					return caseI < caseLast
+				}
+				atNop = false
+				return nextCase()
+			}
 			if l.m.CPU.VerifGetRegs().PC != jp {
 				if !nextCase() {
 					return false
